@@ -180,6 +180,22 @@ func (dm *DMap) syncPutOnCluster(e *env, nt storage.Entry) error {
 	// Quorum based replication.
 	var successful int
 
+	// Store the entry on this node first. The storage engine validates the key and the entry size.
+	// An entry it rejects must not be sent to the backup owners: they would keep a copy (for an
+	// oversized key even a truncated one, the key length is encoded in one byte) that the partition
+	// owner never had, and the backup copies alone could satisfy the write quorum.
+	err := dm.putEntryOnFragment(e, nt)
+	if errors.Is(err, ErrKeyTooLarge) || errors.Is(err, ErrEntryTooLarge) {
+		return err
+	}
+	if err != nil {
+		if dm.s.log.V(3).Ok() {
+			dm.s.log.V(3).Printf("[ERROR] Failed to call put command on %s for DMap: %s: %v", dm.s.rt.This(), e.dmap, err)
+		}
+	} else {
+		successful++
+	}
+
 	encodedEntry := nt.Encode()
 
 	owners := dm.s.backup.PartitionOwnersByHKey(e.hkey)
@@ -202,14 +218,6 @@ func (dm *DMap) syncPutOnCluster(e *env, nt storage.Entry) error {
 			}
 			continue
 		}
-		successful++
-	}
-	err := dm.putEntryOnFragment(e, nt)
-	if err != nil {
-		if dm.s.log.V(3).Ok() {
-			dm.s.log.V(3).Printf("[ERROR] Failed to call put command on %s for DMap: %s: %v", dm.s.rt.This(), e.dmap, err)
-		}
-	} else {
 		successful++
 	}
 	if successful >= dm.s.config.WriteQuorum {
